@@ -206,7 +206,8 @@ fn check_type<T: Elem, U: Elem>(rep: &mut Report, r: &mut Rng, case: u64, miri: 
     dec(rep, "generic", "beve_body", catching(|| generic.beve_body::<Vec<T>>().map_err(|e| e.to_string())));
 
     // ---- wrong element type / wrong format must be rejected, not reinterpreted
-    if n > 0 && (T::CLASS != U::CLASS || T::BYTE_CODE != U::BYTE_CODE) {
+    // (the empty typed array still names its element type in its header, so this holds at length 0 too)
+    if T::CLASS != U::CLASS || T::BYTE_CODE != U::BYTE_CODE {
         match catching(|| bulk.decode_typed_slice::<U>()) {
             Ok(Err(_)) => rep.count("wrong_type_rejected", 1),
             Ok(Ok(v)) => rep.violation(format!("C08:wrong-type-reinterpreted:{}-as-{}", T::NAME, U::NAME), format!("a {} array decoded as {} ({} elements)", T::NAME, U::NAME, v.len()), desc.clone()),
@@ -397,8 +398,8 @@ fn check_type<T: Elem, U: Elem>(rep: &mut Report, r: &mut Rng, case: u64, miri: 
             rep.count("wrong_format_rejected", 1);
         }
     }
-    // wrong element type sent to the borrowing route: rejected
-    if n > 0 && (T::CLASS != U::CLASS || T::BYTE_CODE != U::BYTE_CODE) {
+    // wrong element type sent to the borrowing route: rejected (empty arrays of the wrong type included)
+    if T::CLASS != U::CLASS || T::BYTE_CODE != U::BYTE_CODE {
         let other: Vec<U> = (0..n.min(5)).map(|_| U::mk(r)).collect();
         let m = Message::builder().id(1).query_str("/r").query_format(QueryFormat::JsonPointer).body_aligned_typed_slice(&other).build();
         let w = m.to_vec();
